@@ -28,6 +28,7 @@ type result struct {
 	lastID   int64
 	isQuery  bool
 	writes   []RowWrite // rows changed by this statement (before/after as seen by the transaction)
+	notes    []string   // facts about the execution worth a line in the journal
 }
 
 type parsed struct {
@@ -893,7 +894,7 @@ func (c *Conn) doSelect(st *ast.SelectStmt, args []interface{}) (*result, error)
 	return res, nil
 }
 
-func (c *Conn) checkUnique(tab *Table, self string, r Row) error {
+func (c *Conn) checkUnique(tab *Table, self string, r Row, pending map[string]Row) error {
 	for _, ix := range tab.Indexes {
 		if !ix.Unique || ix.Primary {
 			continue
@@ -911,9 +912,23 @@ func (c *Conn) checkUnique(tab *Table, self string, r Row) error {
 			continue
 		}
 		keys, rows := c.txn.scan(tab)
+		// rows the running statement has accepted but not yet applied
+		var pks []string
+		for k := range pending {
+			pks = append(pks, k)
+		}
+		sort.Strings(pks)
+		nScanned := len(keys)
+		for _, k := range pks {
+			keys = append(keys, k)
+			rows = append(rows, pending[k])
+		}
 		for j, o := range rows {
 			if keys[j] == self {
 				continue
+			}
+			if _, replaced := pending[keys[j]]; replaced && j < nScanned {
+				continue // the statement has already given this row new values
 			}
 			same := true
 			for _, i := range idxs {
@@ -1057,6 +1072,7 @@ func (c *Conn) doInsert(st *ast.InsertStmt, args []interface{}) (*result, error)
 		}
 		row := make(Row, len(tab.Cols))
 		given := make([]bool, len(tab.Cols))
+		autoAssigned := false
 		for j, ex := range vals {
 			ci := colIdx[j]
 			col := tab.Cols[ci]
@@ -1097,6 +1113,7 @@ func (c *Conn) doInsert(st *ast.InsertStmt, args []interface{}) (*result, error)
 				if row[ci] == nil || iv == 0 {
 					autoCounter++
 					row[ci] = autoCounter
+					autoAssigned = true
 					if firstAuto == 0 {
 						firstAuto = autoCounter
 					}
@@ -1131,9 +1148,14 @@ func (c *Conn) doInsert(st *ast.InsertStmt, args []interface{}) (*result, error)
 		if exists {
 			dupKey = key
 		} else if len(st.OnDuplicate) > 0 || st.IsReplace {
-			if err := c.checkUnique(tab, key, row); err != nil {
+			if err := c.checkUnique(tab, key, row, local); err != nil {
 				if de, ok := err.(*dupErr); ok {
 					dupKey = de.key
+					if dupKey != key {
+						// the duplicate is met, through a unique index, on a row whose
+						// primary key is not the one the statement names
+						res.notes = append(res.notes, "dup-on-other-row")
+					}
 					existing, _ = visible(dupKey)
 					if o := c.srv.tryLock(c.txn, lockName(tab, dupKey)); o != nil {
 						return nil, &conflict{o}
@@ -1170,6 +1192,13 @@ func (c *Conn) doInsert(st *ast.InsertStmt, args []interface{}) (*result, error)
 				}
 				e.row, e.insRow = nil, nil
 				if !RowsEqual(upd, existing) {
+					// the updated row must not collide with yet another row
+					if err := c.checkUnique(tab, dupKey, upd, local); err != nil {
+						if de, ok := err.(*dupErr); ok {
+							return nil, &de.sqlErr
+						}
+						return nil, err
+					}
 					nk := tab.pkKey(upd)
 					if len(tab.PK) == 0 {
 						nk = dupKey
@@ -1200,7 +1229,7 @@ func (c *Conn) doInsert(st *ast.InsertStmt, args []interface{}) (*result, error)
 		}
 		if len(st.OnDuplicate) == 0 && !st.IsReplace {
 			// unique secondary keys (against committed + own writes + this statement)
-			if err := c.checkUnique(tab, key, row); err != nil {
+			if err := c.checkUnique(tab, key, row, local); err != nil {
 				if st.IgnoreErr {
 					continue
 				}
@@ -1208,6 +1237,19 @@ func (c *Conn) doInsert(st *ast.InsertStmt, args []interface{}) (*result, error)
 					return nil, &de.sqlErr
 				}
 				return nil, err
+			}
+		}
+		if len(st.OnDuplicate) > 0 && autoAssigned && len(uniqueLockNames(tab, row)) == 0 {
+			hasUnique := false
+			for _, ix := range tab.Indexes {
+				if ix.Unique && !ix.Primary {
+					hasUnique = true
+				}
+			}
+			if hasUnique {
+				// a new row of an upsert that nothing in the statement identifies:
+				// generated primary key, NULL in every unique index
+				res.notes = append(res.notes, "upsert-new-row-auto-pk-null-unique")
 			}
 		}
 		plan = append(plan, pending{key: key, row: row})
@@ -1273,6 +1315,7 @@ func (c *Conn) doUpdate(st *ast.UpdateStmt, args []interface{}) (*result, error)
 		row            Row
 	}
 	var changes []ch
+	updated := map[string]Row{}
 	for i, r := range rows {
 		upd := r.clone()
 		e.row = r
@@ -1324,12 +1367,13 @@ func (c *Conn) doUpdate(st *ast.UpdateStmt, args []interface{}) (*result, error)
 				return nil, &sqlErr{ErDupEntry, fmt.Sprintf("Duplicate entry for key '%s.PRIMARY'", tab.Name)}
 			}
 		}
-		if err := c.checkUnique(tab, keys[i], upd); err != nil {
+		if err := c.checkUnique(tab, keys[i], upd, updated); err != nil {
 			if de, ok := err.(*dupErr); ok {
 				return nil, &de.sqlErr
 			}
 			return nil, err
 		}
+		updated[keys[i]] = upd
 		changes = append(changes, ch{keys[i], nk, upd})
 	}
 	tname := strings.ToLower(tab.Schema + "." + tab.Name)
